@@ -15,7 +15,7 @@ import ast
 
 from ..index import AnchorMissing, Unrecognised
 from ..cfg import CFG
-from ..astutil import (u, body_walk, local_env, func_calls, walk_local, single_return_expr, inline_locals, symbolic_state_after, straightline_return)
+from ..astutil import (linear_body, u, body_walk, local_env, func_calls, walk_local, single_return_expr, inline_locals, symbolic_state_after, straightline_return)
 from ..pend import edge_facts
 from .. import sym, schema
 
@@ -300,7 +300,7 @@ def r4_rest_of_line(ctx):
            key="C04-R4|vcf-rest")
     fr = ix.func(FB, "TextThroughputExtractor.get_fields_by_range")
     env = {}
-    for s in fr.node.body:
+    for s in linear_body(fr.node):
         if isinstance(s, ast.Assign) and isinstance(s.targets[0], ast.Name):
             env[s.targets[0].id] = s.value
     ok = sym.same(env.get("starts"), f"self._field_starts[:, {fr.params[1]}]") and sym.same(env.get("lens"), "self._entry_ends - starts")
@@ -323,7 +323,7 @@ def r5_record_ranges(ctx):
         fi = ix.func(mod, qn)
         # sequential symbolic run: what is entry_ends computed from?
         env = {}
-        for s in fi.node.body:
+        for s in linear_body(fi.node):
             if isinstance(s, ast.Assign):
                 t = s.targets[0]
                 if isinstance(t, ast.Name):
@@ -352,7 +352,7 @@ def r6_lazy_derivations(ctx):
     gi = ix.func(LZ, f"{LAZY}.__getitem__")
     idx = gi.params[1]
     env = local_env(gi.node)
-    rets = [n for n in gi.node.body if isinstance(n, ast.Return)]
+    rets = [n for n in linear_body(gi.node) if isinstance(n, ast.Return)]
     ctx.need(rets, "lazy __getitem__: no return")
     e = inline_locals(rets[-1].value, env)
     want = f"self.__class__(self._itemgetter[{idx}], {{key: value[{idx}] for key, value in self._set_values.items()}}, {{key: value[{idx}] for key, value in self._computed_values.items()}})"
@@ -371,7 +371,7 @@ def r6_lazy_derivations(ctx):
     order_ok = ok and nd[0].lineno < ups[0].lineno and "self._set_values" in u(v)
     ctx.ob(rp.where, "replace(): the new values override the previously assigned ones (old overlay first, then the replacement)", order_ok, u(v), key="C04-R6|replace-precedence")
     e = single_return_expr(rp.node)
-    rets = [n for n in rp.node.body if isinstance(n, ast.Return)]
+    rets = [n for n in linear_body(rp.node) if isinstance(n, ast.Return)]
     ok = bool(rets) and sym.canon(rets[-1].value) == f"self.__class__(self._itemgetter, {name})"
     ctx.ob(rp.where, "replace() keeps the same file buffer and passes the merged overlay (the field cache of replaced fields is not carried over)", ok, u(rets[-1].value) if rets else "",
            key="C04-R6|replace-result")
